@@ -8,10 +8,10 @@ from common import (Inconclusive, NCPU, TLC_CP, build_harness, copy_specs, log, 
                     tlc_failed, tlc_stats, tlc_violation, write_cfg, write_evidence)
 
 # the protocols of the tree being verified (flipped by the commits that repaired F1 / F2)
-CODE_MODEL = {"Proto": '"drain"', "StreamProto": '"snapshot"'}
+CODE_MODEL = {"Proto": '"drain"', "StreamProto": '"snapshot"', "LoopProto": '"survives"', "TruncMayFail": "TRUE"}
 
 OPS_QUICK = ["Ops_RW0", "Ops_RW1", "Ops_RW2", "Ops_RWfull", "Ops_RRW", "Ops_T1", "Ops_T2", "Ops_T3", "Ops_SW",
-             "Ops_SWR", "Ops_STW"]
+             "Ops_SWR", "Ops_STW", "Ops_WWW"]
 OPS_THOROUGH = OPS_QUICK + ["Ops_RW3", "Ops_SSW"]
 
 
@@ -21,7 +21,7 @@ def run_mc(wd, tier):
     jobs = []
     for ops in (OPS_THOROUGH if tier == "thorough" else OPS_QUICK):
         cfg = os.path.join(wd, ops + ".cfg")
-        const = {"NAnc": str(nanc), "Ops": "<- " + ops, "StreamBuf": "1"}
+        const = {"NAnc": str(nanc), "Ops": "<- " + ops, "StreamBuf": "1", "SignalBuf": "1"}
         const.update(CODE_MODEL)
         write_cfg(cfg, "Spec", const, ["TypeOK", "NoLeak", "NoAbandonedWalker", "NoSendOnClosed"], ["EveryOpReturns"],
                   deadlock=True)
